@@ -729,10 +729,10 @@ def reorder_contract(ui):
                       ('if self.entries[entry.index].tag != constants::DW_TAG_base_type {', 'proof { assert(*entry == k0[it2.index@]); assert(np(*entry) == (self.entries@[entry.index as int].tag.0 != 0x24)); }')],
               loops={0: 'invariant root_children@ == filter_by(k0, p, it1.index@), root.children@ == k0, self.root.index < self.entries@.len(), p == (|c: UnitEntryId| old(self).ents()[c.ix() as int].etag().0 == 0x24), *root == self.entries@[self.root.index as int], '
                         'self.entries@ == old(self).entries@, self.root == old(self).root, '
-                        'forall|j: int| 0 <= j < k0.len() ==> (#[trigger] k0[j]).ix() < self.entries@.len()',
+                        'forall|j: int| 0 <= j < k0.len() ==> (#[trigger] k0[j]).ix() < self.entries@.len() // [C11:base-types-first]',
                      1: 'invariant root_children@ == filter_by(k0, p, k0.len() as int) + filter_by(k0, np, it2.index@), root.children@ == k0, self.root.index < self.entries@.len(), np == (|c: UnitEntryId| old(self).ents()[c.ix() as int].etag().0 != 0x24), '
                         '*root == self.entries@[self.root.index as int], self.entries@ == old(self).entries@, self.root == old(self).root, '
-                        'forall|j: int| 0 <= j < k0.len() ==> (#[trigger] k0[j]).ix() < self.entries@.len()'})
+                        'forall|j: int| 0 <= j < k0.len() ==> (#[trigger] k0[j]).ix() < self.entries@.len() // [C11:base-types-first]'})
 
 
 def populate_tree(ctx, sk, un):
@@ -764,7 +764,7 @@ def populate_tree(ctx, sk, un):
               before=[('let verif_drained', 'let ghost fx0 = fixups@;'), ('crate::verif_assert((self.base_id) == (fixup.unit.base_id));', 'proof { assert(fixup == fx0[it.index@]); }')],
               loops={0: f'invariant grew({W0u}, w.wv()), w.wv().len == {W0u}.len, w.wv().ops.len() == {W0u}.ops.len() + it.index@, verif_drained@ == fx0, '
                         f'forall|k: int| 0 <= k < fx0.len() ==> ({{ let fx = #[trigger] fx0[k]; {FIXOK} }}), '
-                        f'forall|k: int| 0 <= k < it.index@ ==> ({{ let fx = fx0[k]; {PATCHED.format(W="w.wv()", W0=W0u)} }})'})
+                        f'forall|k: int| 0 <= k < it.index@ ==> ({{ let fx = fx0[k]; {PATCHED.format(W="w.wv()", W0=W0u)} }}) // [C11:fixup-patched][C18:fixup-offset-at]'})
     sk.add('write::unit', DRAIN, label='drain_fixups')
     sk.add('write::unit', FROM_BOOL, label='usize::from(bool)')
     sk.add('write::unit', ut)
@@ -795,7 +795,7 @@ def populate_tree(ctx, sk, un):
         '[C11:error-not-panic] res is Ok'],
         loops={0: f'invariant attrs@.len() == ita.index@ + {S}, sibling == self.has_sibling(), '
                   f'sibling ==> attrs@[0].sname().0 == 0x01 && attrs@[0].sform().0 == {SIB}, '
-                  f'forall|k: int| 0 <= k < ita.index@ ==> {SPECOK.format(A="attrs@", S=S)}'})
+                  f'forall|k: int| 0 <= k < ita.index@ ==> {SPECOK.format(A="attrs@", S=S)} // [C11:abbrev-forms]'})
 
     E = 'unit.enc()'
     AWF = 'forall|k: int| 0 <= k < self.eattrs().len() ==> attr_wf(#[trigger] self.eattrs()[k].aval())'
@@ -808,7 +808,7 @@ def populate_tree(ctx, sk, un):
                  f'lemma_upto_none(self.eattrs(), its.index@ + 1, self.eattrs().len() as int, {E}, *offsets); }} }}')],
         loops={0: f'invariant {AWF}, die_fits(*self, {E}, *offsets), base <= 18, '
                   f'base == uleb_size(code as nat) + (if self.has_sibling() {{ word_size({E}.format) }} else {{ 0nat }}), '
-                  f'attrs_size_upto(self.eattrs(), its.index@, {E}, *offsets) == Some((size - base) as nat), size >= base'},
+                  f'attrs_size_upto(self.eattrs(), its.index@, {E}, *offsets) == Some((size - base) as nat), size >= base // [C11:die-size-model]'},
         canary=True)
 
     IX = '(self.eid().ix() as int)'
@@ -843,14 +843,14 @@ def populate_tree(ctx, sk, un):
                   f'grew(w0, w.0.wv()), w.0.wv().ops.len() > w0.ops.len(), w.0.wv().ops[w0.ops.len() as int] == WOp::Uleb({CODE}), '
                   f'wa.len == w0.len + {HEAD}, '
                   f'attrs_size_upto(self.eattrs(), itw.index@, {E}, *offsets) == Some((w.0.wv().len - wa.len) as nat), w.0.wv().len >= wa.len, '
-                  'seq_prefix(old(unit_refs)@, unit_refs@) && seq_prefix(old(debug_info_refs)@, debug_info_refs@)',
+                  'seq_prefix(old(unit_refs)@, unit_refs@) && seq_prefix(old(debug_info_refs)@, debug_info_refs@) // [C11:tree-size-eq-len]',
                1: f'invariant unit_tree_ok(*unit), unit_attrs_wf(*unit), {IX} < unit.ents().len() && *self == unit.ents()[{IX}], '
                   'offsets.base() == unit.ubase() && offsets.tab().len() == unit.ents().len() && codes@.len() == unit.ents().len(), '
                   f'offsets.unit_off() <= w0.len, {D} == Some((wk.len - w0.len) as nat), wk.len >= w0.len, '
                   f'kids_layout(*unit, {IX}, self.kids().len() as int, wk.len, *offsets, codes@), '
                   f'grew(w0, w.0.wv()), w.0.wv().ops.len() > w0.ops.len(), w.0.wv().ops[w0.ops.len() as int] == WOp::Uleb({CODE}), '
                   f'kids_size(*unit, {IX}, itc.index@, *offsets, codes@) == Some((w.0.wv().len - wk.len) as nat), w.0.wv().len >= wk.len, '
-                  'seq_prefix(old(unit_refs)@, unit_refs@) && seq_prefix(old(debug_info_refs)@, debug_info_refs@)'},
+                  'seq_prefix(old(unit_refs)@, unit_refs@) && seq_prefix(old(debug_info_refs)@, debug_info_refs@) // [C11:tree-size-eq-len]'},
         canary=True)
     sk.add('write::unit', di)
 
